@@ -22,8 +22,8 @@ PROP_MODULES = {
     "C14": ["contracts.c14", "contracts.c14_bounded", "contracts.c08"],
     "C06": ["contracts.c06", "contracts.c06_bounded"],
     "C07": ["contracts.c07", "contracts.c07_bounded", "contracts.c10"],
-    "C08": ["contracts.c08", "contracts.c15"],
-    "C15": ["contracts.c15", "contracts.c13", "contracts.c08", "contracts.c10", "contracts.c17", "contracts.c14"],
+    "C08": ["contracts.c08", "contracts.c15", "contracts.c12", "contracts.c15_bounded"],
+    "C15": ["contracts.c15", "contracts.c13", "contracts.c08", "contracts.c10", "contracts.c17", "contracts.c14", "contracts.c12", "contracts.c15_bounded"],
     "C16": ["contracts.c16", "contracts.c16_bounded"],
     "C09": ["contracts.c09", "contracts.c09_bounded"],
     "C10": ["contracts.c10", "contracts.c10b", "contracts.c10_bounded"],
